@@ -26,7 +26,7 @@ class DecodeError(Exception):
 
 FUNCS = {"sw", "ew", "ct", "wm", "nsw", "new", "nct", "cs", "cssw", "csew", "csct", "ncssw", "ncsew", "ncsct",
          "re", "nre", "kw", "kwn", "kwre", "cidr", "ncidr", "null", "exists", "nexists", "cmp", "fref",
-         "frefsw", "frefew", "frefct", "ts", "in", "raw"}
+         "frefsw", "frefew", "frefct", "ts", "in", "raw", "ref"}
 CMP_OPS = {"<": "LT", "<=": "LTE", ">": "GT", ">=": "GTE", "<>": "NEQ"}
 
 
@@ -416,9 +416,9 @@ class Decoder:
                 a = AND(items) if len(items) > 1 else items[0]
             else:
                 raise DecodeError("bad in operator")
-        elif base == "raw":
+        elif base in ("raw", "ref"):
             j = self.t.index(")", self.i)
-            a = atom(("raw", self.t[self.i:j]))
+            a = atom((base, self.t[self.i:j]))
             self.i = j + 1
         else:  # pragma: no cover
             raise DecodeError("unknown function " + name)
